@@ -278,7 +278,25 @@ def machine(on_end, expired):
                 self._note("ok")
             self.step("nudge", {"i": i, "d": d}, go)
 
-        @rule(i=st.integers(0, 7), mag=st.sampled_from([1.5, 2.5, -3.0, 10.0]))
+        @rule()
+        def flip(self):
+            """continue the history on the qubit-reversed wavefunction (a wavefunction like any other)"""
+            def go():
+                from orquestra.quantum.wavefunction import flip_wavefunction
+
+                N = len(self.model)
+                nq = N.bit_length() - 1
+                perm = [int(format(j, "0%db" % nq)[::-1], 2) if nq else 0 for j in range(N)]
+                w = must(lambda: flip_wavefunction(self.wf), "flip_wavefunction")
+                self._unchanged(_read(self.wf), "flip_wavefunction (argument)")
+                self.wf = w
+                self.model = [self.model[perm[j]] for j in range(N)]
+                if any(_is_sym(x) for x in self.model):
+                    self.column = True
+                self.info["classes"].add("flipped")
+            self.step("flip", {}, go)
+
+        @rule(i=st.integers(0, 7), mag=st.sampled_from([1.5, 2.5, -3.0, 10.0, 1e160, -3e200, 1e155j]))
         def break_(self, i, mag):
             def go():
                 k = i % len(self.model)
